@@ -93,6 +93,20 @@ Definition av_arg (a:nat) (w:Z) (s:bool) : av :=
   let n := Z.to_nat w in
   {| bits := map (fun j => BV a j false) (seq 0 n); sgn := if s then BV a (n - 1) false else B0 |}.
 
+(* a symbolic value all of whose bits are known: its integer (the candidate is computed from the bits and then confirmed by
+   comparing its canonical form, so that soundness needs no arithmetic about the sum) *)
+Definition bt_is_const (b:bt) : bool := match b with BV _ _ _ => false | _ => true end.
+Definition av_to_const (v:av) : option Z :=
+  if forallb bt_is_const (sgn v :: bits v) then
+    let z := fold_right (fun b acc => (if bt_eqb b B1 then 1 else 0) + 2 * acc) (if bt_eqb (sgn v) B1 then -1 else 0) (bits v) in
+    if av_eqb (av_const z) v then Some z else None
+  else None.
+Definition cst2 (f:Z -> Z -> Z) (x y:option av) : option av :=
+  match x, y with
+  | Some a, Some b => match av_to_const a, av_to_const b with Some p, Some q => Some (av_const (f p q)) | _, _ => None end
+  | _, _ => None
+  end.
+
 (* abstraction environment: symbolic values of the arguments and of the read slots that are known *)
 Record aenv : Type := { ae_arg : nat -> option av; ae_slot : nat -> option av }.
 
@@ -114,6 +128,11 @@ Fixpoint abs (g:aenv) (e:iexpr) : option av :=
   | ELNot a => obind (abs g a) (fun x => option_map (fun b => av_of_bit (bnot b)) (nonzero_bit x))
   | ENe a b => obind (abs g a) (fun x => obind (abs g b) (fun y => obind (av_map2 bxor x y) (fun d => option_map av_of_bit (nonzero_bit d))))
   | EEq a b => obind (abs g a) (fun x => obind (abs g b) (fun y => obind (av_map2 bxor x y) (fun d => option_map (fun t => av_of_bit (bnot t)) (nonzero_bit d))))
+  | EAdd a b => cst2 Z.add (abs g a) (abs g b)                 (* arithmetic and comparisons: only between known constants *)
+  | ESub a b => cst2 Z.sub (abs g a) (abs g b)
+  | EMul a b => cst2 Z.mul (abs g a) (abs g b)
+  | ELt a b => cst2 (fun p q => b2z (p <? q)) (abs g a) (abs g b)
+  | ELe a b => cst2 (fun p q => b2z (p <=? q)) (abs g a) (abs g b)
   | ECond c a b => obind (abs g c) (fun xc => obind (nonzero_bit xc) (fun cb =>
                    obind (abs g a) (fun x => obind (abs g b) (fun y => av_map2 (bmux cb) x y))))
   | _ => None
@@ -198,8 +217,11 @@ Record ast : Type := { a_idx : Z; a_slots : list (nat * aslot); a_outs : list (n
 Fixpoint alookup (k:nat) (l:list (nat * aslot)) : option aslot :=
   match l with [] => None | (j, v) :: r => if Nat.eqb j k then Some v else alookup k r end.
 
-Definition slot_env (sl:list (nat * aslot)) : aenv :=
-  {| ae_arg := fun _ => None; ae_slot := fun k => match alookup k sl with Some (SInt v) => Some v | _ => None end |}.
+(* pa: the parser's own integer arguments whose value is fixed for this run (the record index of a per-record parser) *)
+Definition run_env (pa:nat -> option Z) (sl:list (nat * aslot)) : aenv :=
+  {| ae_arg := fun a => option_map av_const (pa a); ae_slot := fun k => match alookup k sl with Some (SInt v) => Some v | _ => None end |}.
+Definition no_pargs : nat -> option Z := fun _ => None.
+Definition const_of (g:aenv) (e:iexpr) : option Z := obind (abs g e) av_to_const.
 
 Definition abind (k:nat) (v:aslot) (st:ast) : ast := {| a_idx := a_idx st; a_slots := (k, v) :: a_slots st; a_outs := a_outs st; a_ret := a_ret st |}.
 Definition aset_idx (i:Z) (st:ast) : ast := {| a_idx := i; a_slots := a_slots st; a_outs := a_outs st; a_ret := a_ret st |}.
@@ -231,13 +253,13 @@ Definition len_check (ap:list abyte) (c:iexpr) : option bool :=
   | _ => None
   end.
 
-Fixpoint arun (ap:list abyte) (p:pstmt) (st:ast) : option ast :=
+Fixpoint arun (pa:nat -> option Z) (ap:list abyte) (p:pstmt) (st:ast) : option ast :=
   match a_ret st with
   | Some _ => Some st
   | None =>
     match p with
     | PSkip => Some st
-    | PSeq a b => obind (arun ap a st) (arun ap b)
+    | PSeq a b => obind (arun pa ap a st) (arun pa ap b)
     | PRead k (RInt n s def) =>
       if inside ap (a_idx st) (Z.of_nat n) && Nat.ltb 0 n then
         match sequence (map bits_of_abyte (window ap (a_idx st) n)) with
@@ -259,22 +281,24 @@ Fixpoint arun (ap:list abyte) (p:pstmt) (st:ast) : option ast :=
       if inside ap (a_idx st) len && (0 <=? len) && plain size
       then Some (aset_idx (a_idx st + len) (abind (S k) SOther (abind k SOther st))) else None
     | PRead _ (RVarStr _ _) => None
-    | PSetIdx (EConst z) => Some (aset_idx z st)
-    | PAddIdx (EConst z) => Some (aset_idx (a_idx st + z) st)
-    | POutI j e => option_map (fun v => aadd_out j (SInt v) st) (abs (slot_env (a_slots st)) e)
+    | PSetIdx e => option_map (fun z => aset_idx z st) (const_of (run_env pa (a_slots st)) e)
+    | PAddIdx e => option_map (fun z => aset_idx (a_idx st + z) st) (const_of (run_env pa (a_slots st)) e)
+    | POutI j e => option_map (fun v => aadd_out j (SInt v) st) (abs (run_env pa (a_slots st)) e)
     | POutD j (DSlot k) => match alookup k (a_slots st) with
                            | Some (SDbl n s p def d) => Some (aadd_out j (SDbl n s p def d) st)
                            | _ => None
                            end
     | POutD j _ => Some (aadd_out j SOther st)
     | POutT j k => Some (aadd_out j SOther st)
-    | PIf c (PRet (EConst 0)) PSkip =>
-      match len_check ap c with
-      | Some b => if b then Some st else None
-      | None => match abs (slot_env (a_slots st)) c with Some v => if is_zero_av v then Some st else None | None => None end
+    | PIf c t e =>
+      match const_of (run_env pa (a_slots st)) c with
+      | Some z => if z =? 0 then arun pa ap e st else arun pa ap t st         (* the condition is decided: follow that arm *)
+      | None => match t, e with
+                | PRet (EConst 0), PSkip => match len_check ap c with Some true => Some st | _ => None end
+                | _, _ => None
+                end
       end
-    | PRet (EConst z) => Some (aset_ret (negb (z =? 0)) st)
-    | _ => None
+    | PRet e => option_map (fun z => aset_ret (negb (z =? 0)) st) (const_of (run_env pa (a_slots st)) e)
     end
   end.
 
@@ -315,7 +339,7 @@ Fixpoint forallb2 {A B} (f:A -> B -> bool) (l:list A) (m:list B) : bool :=
 Definition rt_run (s:setter) (p:parser) (gamma:list argty) : option (list abyte * ast) :=
   match p_guard p with
   | Some n => if n =? s_pgn s then
-                obind (aset (arg_env gamma) (s_body s) []) (fun ap => option_map (fun st => (ap, st)) (arun ap (p_body p) ast0))
+                obind (aset (arg_env gamma) (s_body s) []) (fun ap => option_map (fun st => (ap, st)) (arun no_pargs ap (p_body p) ast0))
               else None
   | None => None
   end.
@@ -335,6 +359,18 @@ Definition rt_check (s:setter) (p:parser) (gamma:list argty) (m:list (nat * nat)
   match rt_descs s p gamma m with Some _ => true | None => false end.
 
 Definition guard_check (p:parser) (n:Z) : bool := match p_guard p with Some k => k =? n | None => false end.
+
+(* a PGN test that comes after outputs have been preset to constants (ParseN2kPGN59904): the parser still returns false for every
+   other PGN, although it has assigned those outputs *)
+Fixpoint weak_guard (p:pstmt) (n:Z) : bool :=
+  match p with
+  | PSeq (POutI _ (EConst _)) r => weak_guard r n
+  | PSeq (POutD _ (DConst _)) r => weak_guard r n
+  | PSeq (PIf (ENe EPgn (EConst k)) (PRet (EConst 0)) PSkip) _ => k =? n
+  | _ => false
+  end.
+Definition guard_check_weak (p:parser) (n:Z) : bool :=
+  match p_guard p with Some k => k =? n | None => weak_guard (p_body p) n end.
 
 (* ---------------------------------------------------------------- statements *)
 Definition arg_ok (t:argty) (v:argval) : Prop :=
@@ -372,6 +408,9 @@ Definition roundtrip_sound_stmt : Prop :=
 
 Definition guard_sound_stmt : Prop :=
   forall p n, guard_check p n = true -> forall args msg, m_pgn msg <> n -> exec_parse p args msg = refused.
+
+Definition guard_weak_sound_stmt : Prop :=
+  forall p n, guard_check_weak p n = true -> forall args msg, m_pgn msg <> n -> r_ret (exec_parse p args msg) = false.
 
 Definition locality_stmt : Prop :=
   forall p args m m', m_pgn m = m_pgn m' -> m_len m = m_len m' ->
